@@ -1,5 +1,6 @@
 import Driver.Loop
 import PMV.Model.Heap
+import PMV.Gen.Summaries
 /- line-protocol handler for the C07 view (heap model of aliasing)
 
    request : (c07 call <summary> <flag> (keys…) <next> (objs (oid vals mask units ro (k d)…)…)
@@ -107,6 +108,23 @@ def resultDesc (h0 h : Heap) (srcs : List Nat) (next0 : Nat) : Val → Sx
   | .arr a => .list [.atom "array", arrDesc h0 h srcs (some a)]
   | .py => .atom "py"
 
+def parseMutT : Sx → Option MutT
+  | .atom "write" => some (.own (.write 41))
+  | .atom "writeMask" => some (.own (.writeMask 42))
+  | .atom "rebind" => some (.own (.rebindVals 43))
+  | .atom "setUnits" => some (.own (.setUnits none))
+  | .atom "freeze" => some (.own .freeze)
+  | .list [.atom "dwrite", k] => k.toNat?.map fun k => .deriv k (.write 44)
+  | .list [.atom "insert", k] => k.toNat?.map fun k => .insertDeriv k 45
+  | .list [.atom "delete", k] => k.toNat?.map fun k => .deleteDeriv k
+  | _ => none
+
+/-- executable version of `SameObsT`: the object, its derivative set and objects, their ndarrays and buffers -/
+def obsEq (h h' : Heap) (x : Nat) : Bool :=
+  (h.reachObjs x).all fun p =>
+    h'.obj p == h.obj p &&
+    (h.objArrs p).all fun a => h'.arr a == h.arr a && h'.buf (h.arr a).buf == h.buf (h.arr a).buf
+
 def handle : List Sx → Sx
   | [.atom "call", .atom name, flag, keys, next, .list (.atom "objs" :: objs), .list (.atom "arrs" :: arrs),
      .list (.atom "args" :: args), .list (.atom "srcs" :: srcs), .list (.atom "sched" :: sched)] =>
@@ -132,6 +150,25 @@ def handle : List Sx → Sx
                (if st.raised then .atom "-" else resultDesc h0 h srcs next (st.env 0)),
                .list (.atom "wr" :: wr.map Sx.ofNat), .list (.atom "ro" :: ro.map Sx.ofNat), Sx.ofNat other]
     | _, _, _, _, _, _, _, _ => err "operand"
+  | [.atom "seq", side, .list (.atom "muts" :: muts), next, .list (.atom "objs" :: objs),
+     .list (.atom "arrs" :: arrs), root] =>
+    -- c = root.copy(); apply the mutators to the source (side = T) or to the copy (side = F); is the complete
+    -- observation of the other one unchanged ?
+    match side.toBool?, muts.mapM parseMutT, next.toNat?, objs.mapM parseObj, arrs.mapM parseArr, root.toNat? with
+    | some side, some muts, some next, some objs, some arrs, some root =>
+      let h0 := mkHeap next objs arrs
+      let r := copyObj h0 root
+      let h1 := r.1
+      let c := r.2
+      let h2 := runHistT h1 root c (muts.map fun m => (side, m))
+      let other := if side then c else root
+      .list [.atom "same", Sx.ofBool (obsEq h1 h2 other)]
+    | _, _, _, _, _, _ => err "operand"
+  | [.atom "gen", .atom fn] =>
+    -- what the generated summary of `fn` claims about its result, and whether the summary passes its check
+    match PMV.Gen.C07S.summaries.find? (fun s => s.fn == fn) with
+    | some s => .list [.atom "gen", .atom s.claim, Sx.ofBool (safe s.rx s.prog)]
+    | none => .atom "no-summary"
   | _ => err "c07-op"
 
 end Drv.C07
